@@ -127,6 +127,23 @@ def wireHeader (w : Bytes) : Option (List Label × Nat × Nat) := do
   | t1 :: t2 :: c1 :: c2 :: _ => some (ls, t1.toNat * 256 + t2.toNat, c1.toNat * 256 + c2.toNat)
   | _ => none
 
+/-- type and RDATA of an uncompressed wire record. -/
+def wireRdata (w : Bytes) : Option (Nat × Bytes) := do
+  let (ls, typ, _) ← wireHeader w
+  let n := (ls.map (fun l => l.length + 1)).sum + 1
+  some (typ, w.drop (n + 10))
+
+/-- the model's canonical RDATA of every record must be the line's `c=` column. -/
+def canonAgrees (rr c : String) : Bool :=
+  if rr == "-" then true else
+  match (rr.splitOn ",").mapM hexBytes, (c.splitOn ",").mapM hexBytes with
+  | some ws, some cs =>
+    ws.length == cs.length && (ws.zip cs).all (fun (w, cd) =>
+      match wireRdata w with
+      | some (typ, rd) => canonRdata typ rd == some cd
+      | none => false)
+  | _, _ => false
+
 def parseVKey (s : String) : Option VKey :=
   match s.splitOn "," with
   | [fl, pr, al, cl, nm, pk] => do
@@ -225,6 +242,7 @@ def step (st : State) (w : List String) : State × String :=
         parseVRecs (rr.drop 3).toString (o.drop 2).toString (c.drop 2).toString,
         mkOracle (sw.drop 3).toString (h.drop 2).toString (x.drop 2).toString with
     | some vk, some vs, some set, some orc =>
+      if !canonAgrees (rr.drop 3).toString (c.drop 2).toString then (st, "canon-rdata-differs") else
       let own := verifySignature stdVerify b64Decode limits vkeyTag orc vk vs set
       let cv := cryptoVerify stdVerify b64Decode limits vkeyTag false orc vk vs set
       (st, s!"own={verdictStr own} cv={if ownAlg vk.alg then verdictStr cv else "lib:reject"}")
@@ -282,6 +300,7 @@ def step (st : State) (w : List String) : State × String :=
     | some typ, some cls, some alg, some labels, some origTTL, some e, some i, some tag =>
       match hexBytes signerWire, (hexBytes ownerWire).bind (fun o => splitWire (o.length + 1) o), hexList rds with
       | some sw, some ols, some rdl =>
+        if !canonAgrees _wires rds then (st, "canon-rdata-differs") else
         match signedData typ cls alg labels origTTL e i tag sw ols rdl with
         | some d => (st, bytesHex d)
         | none => (st, "err")
